@@ -89,7 +89,8 @@ def R1_constants(run):
                 return self._r.check(rule, inst, cond, msg, **kw)
         q = Quiet(run, side == "program")
         pos = C09._ladder(q, "get_sqrt_price_positive_tick", C09._tick_is_param, facts=facts, tm=tm, tag=tag)
-        neg = C09._ladder(q, "get_sqrt_price_negative_tick", C09._tick_is_abs, facts=facts, tm=tm, tag=tag)
+        passed = C09.passed_to_ladders(facts, tm, "sqrt_price_from_tick_index" if side == "program" else "tick_index_to_sqrt_price", "tick" if side == "program" else "tick_index")
+        neg = C09._ladder(q, "get_sqrt_price_negative_tick", C09.tick_magnitude(passed.get("get_sqrt_price_negative_tick")), facts=facts, tm=tm, tag=tag)
         lad[side] = (pos, neg)
     for i, name in enumerate(("positive", "negative")):
         a, b = lad["program"][i], lad["sdk"][i]
@@ -1048,15 +1049,30 @@ def R3c_sequence_lookup(run):
     for bi, bb in enumerate(fn.blocks):
         if bb["t"]["k"] != "ret":
             continue
+        # (the private `ticks(&Option<TickArrayFacade>)` selector is read spliced in: a present array gives its ticks, a missing one
+        # the empty slice, whose indexing panics)
+        pays = []
         for l in leaves(pv.local(0, bi, len(bb["s"]))):
             p_ = _ok_payload(l)
-            if p_ is None or p_[0] != "index":
-                continue
+            if p_ is not None:
+                pays += [strip(x) for x in leaves(p_)]
+        for p_ in pays:
+            if p_[0] != "index":
+                found = "a value that is no slot of an array: " + show(p_)[:80]
+                ok = False
+                break
             slot, arr = strip(p_[2]), strip(p_[1])
-            if not (slot[0] == "bin" and slot[1] == "Div" and arr[0] == "call" and arr[1].endswith("tick_array::ticks")):
-                continue
-            ai = strip(strip(arr[2][0])[2]) if strip(arr[2][0])[0] == "index" else None
-            if ai is None or not (ai[0] == "bin" and ai[1] == "Div"):
+            if arr[0] == "array" and not arr[1]:
+                continue    # the missing-array arm
+            src = arr[1] if (arr[0] == "field" and arr[2] == "ticks") else None
+            while src is not None and src[0] in ("q", "cast", "payload"):
+                src = src[1]
+            if not (slot[0] == "bin" and slot[1] == "Div" and src is not None and src[0] == "index" and is_field(strip(src[1]), "tick_arrays")):
+                found = "slot %s of %s" % (show(slot)[:60], show(arr)[:60])
+                ok = False
+                break
+            ai = strip(src[2])
+            if not (ai[0] == "bin" and ai[1] == "Div"):
                 continue
             num_a, den_a = poly(ai[2], atom), poly(ai[3], atom)
             num_s, den_s = poly(slot[2], atom), poly(slot[3], atom)
@@ -1065,7 +1081,7 @@ def R3c_sequence_lookup(run):
             # ... and the array whose start is subtracted is the array the tick is read from
             st_ix = [strip(x[2][0])[2] for x in subterms(slot[2]) if x[0] == "call" and x[1].endswith("tick_array::start_tick_index") and strip(x[2][0])[0] == "index"
                      and const_val(strip(x[2][0])[2]) != 0]
-            ok = ok and len(st_ix) == 1 and strip(st_ix[0]) == strip(strip(arr[2][0])[2])
+            ok = ok and len(st_ix) == 1 and strip(st_ix[0]) == ai
     run.check("R3c", "lookup-formula", ok, "SDK tick() reads %s" % found, loc=fn.loc(), detail="arrays[(i - start[0]) / (88 s)].ticks[(i - start[k]) / s]")
     g = K.need_fn(pre + "start_index")
     run.touch(g)
